@@ -187,7 +187,10 @@ def gen_lex_grammar(rng, safe_regdefs=True, nullable_bodies=False, max_tokens=6)
     strlits = []
     if rng.random() < 0.4:
         for _ in range(rng.choice([1, 2])):
-            s = "".join(rng.choice([c for c in alpha if c.isalnum() or c in "+-*"] or ["a"]) for _ in range(rng.choice([1, 2, 3])))
+            pool = [c for c in alpha if c.isalnum() or c in "+-*"] or ["a"]
+            if rng.random() < 0.4:
+                pool = pool + ["é", "€", "≤", "λ", "\U0001F600"]
+            s = "".join(rng.choice(pool) for _ in range(rng.choice([1, 2, 3])))
             if s not in strlits:
                 strlits.append(s)
     if not any(not n.startswith(("_", "!")) for (n, _) in prods) and not strlits:
